@@ -242,8 +242,12 @@ class BaseDerivative(BaseInstrument):
 
     def __setattr__(self, name: str, value: Any) -> None:
         if isinstance(value, BasePrimary):
+            # An underlier lives in the registry only (and is looked up by __getattr__):
+            # a copy among the instance attributes would shadow a later register_underlier.
             self.register_underlier(name, value)
-        super().__setattr__(name, value)
+            self.__dict__.pop(name, None)
+        else:
+            super().__setattr__(name, value)
 
     @property
     def spot(self) -> Tensor:
